@@ -60,11 +60,17 @@ theorem C13_no_expect_panic (cfg : Cfg) (c : Nat) (s : Shared) (l : Locals) (b :
   cases lp with
   | get ng =>
     simp only [stepLP]
-    have := stepNG_fault s b ng
+    have hng : (stepNG s b ng).1.fault ≠ some expectPanic := by
+      rcases stepNG_fault s b ng with e | ⟨e, _⟩
+      · rw [e]; exact keep s hf
+      · rw [e]; exact nf s _ hf (by simp [expectPanic, chkAssert])
     split <;> simp_all
   | reget ng =>
     simp only [stepLP]
-    have := stepNG_fault s b ng
+    have hng : (stepNG s b ng).1.fault ≠ some expectPanic := by
+      rcases stepNG_fault s b ng with e | ⟨e, _⟩
+      · rw [e]; exact keep s hf
+      · rw [e]; exact nf s _ hf (by simp [expectPanic, chkAssert])
     split <;> simp_all
   | cool cd =>
     simp only [stepLP]
